@@ -132,14 +132,23 @@ def coqc(path, extra_dirs=(), timeout=None):
 
 
 def ensure_static_built():
-    """(Re)build Lib/Model/Properties with make (incremental)."""
-    mk = COQ / "Makefile"
-    if not mk.exists() or mk.stat().st_mtime < (COQ / "_CoqProject").stat().st_mtime:
-        subprocess.run(["coq_makefile", "-f", "_CoqProject", "-o", "Makefile"], cwd=str(COQ), check=True,
-                       capture_output=True)
-    p = subprocess.run(["timeout", "3000", "make", "-j8"], cwd=str(COQ), capture_output=True, text=True)
-    if p.returncode != 0:
-        raise HarnessFault("static Coq development does not build:\n" + (p.stdout + p.stderr)[-3000:])
+    """(Re)build Lib/ and Model/ with make (incremental, under a lock so that concurrent checks do
+    not race).  _CoqProject is regenerated from the files present."""
+    import fcntl
+    BUILD.mkdir(exist_ok=True)
+    with open(BUILD / ".make.lock", "w") as lk:
+        fcntl.flock(lk, fcntl.LOCK_EX)
+        files = sorted(str(p.relative_to(COQ)) for d in ("Lib", "Model") for p in (COQ / d).glob("*.v"))
+        text = "-Q Lib LunaLib\n-Q Model LunaModel\n-Q Properties LunaProps\n" + "\n".join(files) + "\n"
+        cp = COQ / "_CoqProject"
+        if not cp.exists() or cp.read_text() != text:
+            cp.write_text(text)
+        mk = COQ / "Makefile"
+        if not mk.exists() or mk.stat().st_mtime < cp.stat().st_mtime:
+            subprocess.run(["coq_makefile", "-f", "_CoqProject", "-o", "Makefile"], cwd=str(COQ), check=True,
+                           capture_output=True)
+        p = subprocess.run(["timeout", "3000", "make", "-k", "-j8"], cwd=str(COQ), capture_output=True, text=True)
+        return p.returncode == 0, (p.stdout + p.stderr)[-3000:]
 
 
 def nlist(xs):
